@@ -152,21 +152,42 @@ def cancel_and_shutdown(ctx):
     st = [n for n in own_nodes(f.node) if isinstance(n, ast.Assign) and isinstance(n.targets[0], ast.Attribute) and n.targets[0].attr == 'exception']
     ok = len(st) == 1 and norm(st[0].value) == 'CancelledError()' and any(t.endswith('.done') and pol is False for t, pol in q.guard_texts(st[0])) and isinstance(q.in_loop(st[0]), ast.For)
     ctx.ob(f, 'cancel-all skips transfers that are done', ok, 'a finished download would be reported as cancelled')
-    f = ctx.func('processpool.ProcessPoolDownloader._shutdown')
-    order = [(dotted(c.func) or '') for c in own_calls(f.node)]
-    ctx.ob(f, '_shutdown: submitter -> workers -> monitor manager', order[:3] == ['self._shutdown_submitter', 'self._shutdown_get_object_workers', 'self._shutdown_transfer_monitor_manager'], f'{order}')
-    f = ctx.func('processpool.ProcessPoolDownloader._shutdown_submitter')
-    g = ctx.cfg(f)
-    put = [x for c in own_calls(f.node) if (dotted(c.func) or '').endswith('_download_request_queue.put') and norm(c.args[0]) == 'SHUTDOWN_SIGNAL' for x in g.nodes_of(c)]
-    join = [x for c in own_calls(f.node) if (dotted(c.func) or '') == 'self._submitter.join' for x in g.nodes_of(c)]
-    ctx.ob(f, 'queue SHUTDOWN_SIGNAL then join the submitter', bool(put and join) and g.all_dominate(put, join, g.NORMAL) and g.must_pass([g.entry], join, [g.exit], g.NORMAL),
-           'shutdown must wait until every queued download request was submitted')
-    f = ctx.func('processpool.ProcessPoolDownloader._shutdown_get_object_workers')
-    loops = sorted([n for n in own_nodes(f.node) if isinstance(n, ast.For) and norm(n.iter) == 'self._workers'], key=lambda n: n._pos)
-    puts = [c for c in own_calls(f.node) if (dotted(c.func) or '').endswith('_worker_queue.put') and norm(c.args[0]) == 'SHUTDOWN_SIGNAL']
-    joins = [c for c in own_calls(f.node) if isinstance(c.func, ast.Attribute) and c.func.attr == 'join']
-    ok = len(loops) == 2 and len(puts) == 1 and q.in_loop(puts[0]) is loops[0] and len(joins) == 1 and q.in_loop(joins[0]) is loops[1]
-    ctx.ob(f, 'one SHUTDOWN_SIGNAL per worker, then join every worker', ok, 'a worker without a signal never exits (shutdown hangs); an unjoined worker may still be writing')
+    # judged on the fully expanded _shutdown (however it is cut into helpers): signal + join the submitter, then one signal
+    # per worker, then join every worker, then the monitor manager - each on every path, in that order
+    x = ctx.expanded()
+    f = x.func('processpool.ProcessPoolDownloader._shutdown')
+    g = x.cfg(f)
+
+    def _over_workers(loop):
+        it = q.resolve_local(f, loop.iter) if isinstance(loop, ast.For) else None
+        t = norm(it) if it is not None else ''
+        return t in ('self._workers', 'range(len(self._workers))', 'list(self._workers)')
+    ev = {}
+    for c in own_calls(f.node):
+        d = dotted(c.func) or ''
+        if d.endswith('_download_request_queue.put') and c.args and norm(c.args[0]) == 'SHUTDOWN_SIGNAL':
+            ev.setdefault('signal submitter', []).append(c)
+        elif d == 'self._submitter.join':
+            ev.setdefault('join submitter', []).append(c)
+        elif d.endswith('_worker_queue.put') and c.args and norm(c.args[0]) == 'SHUTDOWN_SIGNAL' and q.in_loop(c) is not None and _over_workers(q.in_loop(c)):
+            ev.setdefault('signal every worker', []).append(c)
+        elif isinstance(c.func, ast.Attribute) and c.func.attr == 'join' and isinstance(q.in_loop(c), ast.For) and _over_workers(q.in_loop(c)) \
+                and norm(c.func.value) == norm(q.in_loop(c).target):
+            ev.setdefault('join every worker', []).append(c)
+        elif d == 'self._manager.shutdown':
+            ev.setdefault('shut the monitor manager down', []).append(c)
+    names = ['signal submitter', 'join submitter', 'signal every worker', 'join every worker', 'shut the monitor manager down']
+    ok = all(len(ev.get(n, [])) == 1 for n in names)
+    if ok:
+        # a loop's statements are reached through the loop head: order the events by the node that is on every path
+        def anchor(c):
+            lp = q.in_loop(c)
+            return [n for n in g.nodes if n.kind == 'for' and n.stmt is lp] if lp is not None else g.nodes_of(c)
+        seq = [anchor(ev[n][0]) for n in names]
+        ok = all(g.must_pass([g.entry], a, [g.exit], g.NORMAL) for a in seq) and all(g.all_dominate(a, b, g.NORMAL) for a, b in zip(seq, seq[1:]))
+    ctx.ob(f.qualname, '_shutdown: signal + join submitter -> one SHUTDOWN_SIGNAL per worker -> join every worker -> monitor manager', ok,
+           f'found {[(n, len(ev.get(n, []))) for n in names]}: shutdown must wait until every queued download request was submitted, a worker without a signal never '
+           'exits (shutdown hangs), an unjoined worker may still be writing, and the manager hosts the monitor the workers still talk to', node=f.node)
     f = ctx.func('processpool.ProcessPoolDownloader._shutdown_if_needed')
     cs = [c for c in own_calls(f.node) if (dotted(c.func) or '') == 'self._shutdown']
     ctx.ob(f, 'shutdown only when started, under the start lock', len(cs) == 1 and q.guards_imply(q.guards(cs[0]), 'self._started') and 'self._start_lock' in q.locks_held(cs[0]), 'shutdown()/start race')
@@ -175,7 +196,8 @@ def cancel_and_shutdown(ctx):
     w = [x for c in own_calls(f.node) if isinstance(c.func, ast.Attribute) and c.func.attr == 'wait_till_done' for x in g.nodes_of(c)]
     rs = [n for n in own_nodes(f.node) if isinstance(n, ast.Raise)]
     en = (q.names_defined_by(f, lambda v: norm(v).endswith('.exception')) or ['exception'])[0]
-    ok = bool(w) and g.must_pass([g.entry], w, [g.exit], g.NORMAL) and bool(rs) and all(q.guards_imply(q.guards(r), en) and norm(r.exc) == en for r in rs) \
+    ok = bool(w) and g.must_pass([g.entry], w, [g.exit], g.NORMAL) and bool(rs) \
+        and all(r.exc is not None and (norm(r.exc) == en or norm(r.exc).endswith('.exception')) and q.guards_imply(q.guards(r), norm(r.exc)) for r in rs) \
         and g.all_dominate(w, [x for r in rs for x in g.nodes_of(r)], g.NORMAL)
     ctx.ob(f, 'poll_for_result: wait till done, then raise the recorded exception if any', ok, 'result() could return before the download finished or swallow the failure')
     f = ctx.func('processpool.ProcessPoolTransferFuture.result')
